@@ -183,19 +183,37 @@ theorem sim_step {s s' : State} {e : Event} (h : step repaired s e = some s') :
     simpa [cstep, absEvent, PC.cls, hl, repaired] using mv_abs s .hasL hi
   | readQ i =>
     simp only [step] at h
-    split at h <;> try (simp at h)
-    rename_i hi
-    subst h
-    have := mv_abs s (.readQ (!s.queue.isEmpty)) hi
-    cases hq : s.queue <;> simp [hq] at this <;> simpa [cstep, absEvent, PC.cls, abs, hq] using this
+    split at h
+    · rename_i hi
+      simp at h; subst h
+      have := mv_abs s (.readQ (!s.queue.isEmpty)) hi
+      cases hq : s.queue <;> simp [hq] at this <;> simpa [cstep, absEvent, PC.cls, abs, hq, hi] using this
+    · rename_i z hi
+      simp at h; subst h
+      have := mv_abs s (if s.queue.isEmpty && z then .willWait else .unlocking) hi
+      cases z <;> cases hq : s.queue <;> simp [hq, PC.cls] at this <;>
+        simpa [cstep, absEvent, PC.cls, abs, hq, hi] using this
+    · simp at h
   | readKill i =>
     simp only [step] at h
-    split at h <;> try (simp at h)
-    rename_i pnd hi
-    subst h
-    have := mv_abs s (if !pnd && s.kill == 0 then .willWait else .unlocking) hi
-    cases pnd <;> by_cases hk : s.kill = 0 <;>
-      simp [hk, PC.cls] at this <;> simpa [cstep, absEvent, PC.cls, abs, hi, hk] using this
+    split at h
+    · rename_i pnd hi
+      simp at h; subst h
+      have := mv_abs s (if !pnd && s.kill == 0 then .willWait else .unlocking) hi
+      cases pnd <;> by_cases hk : s.kill = 0 <;>
+        simp [hk, PC.cls] at this <;> simpa [cstep, absEvent, PC.cls, abs, hi, hk] using this
+    · rename_i hi
+      simp at h; subst h
+      by_cases hk : s.kill = 0
+      · have hb : (s.kill == 0) = true := by simp [hk]
+        have := mv_abs s (.readK true) hi
+        rw [hb]
+        simpa [cstep, absEvent, PC.cls, abs, hi, hk] using this
+      · have hb : (s.kill == 0) = false := by simp [hk]
+        have := mv_abs s (.readK false) hi
+        rw [hb]
+        simpa [cstep, absEvent, PC.cls, abs, hi, hk] using this
+    · simp at h
   | wRelock i =>
     simp only [step] at h
     split at h <;> try (simp at h)
